@@ -275,6 +275,10 @@ def run_wide(rep, strict_diff):
                                  detail=dict(A=ta.get("SKIP"), B=tb.get("SKIP")))); break
             if "SKIP" in ta: break
             for i in (ia, ib): cmds.append(f"tie {work}/{i}.{v}.net {work}/{i}.{v}.trace")
+            nin = sum(1 if l.startswith("inb ") else int(l.split()[2]) for l in prog[ia] if l.startswith(("in ", "inb ")))
+            if 3 ** nin <= (243 if rep.tier == "quick" else 2187):
+                # few input bits: the verified certificate closes all stimuli and cycles for this wide pair too
+                cmds.append(f"cert {'strict' if v == 'pre' else 'compat'} {work}/{ia}.{v}.net {work}/{ib}.{v}.net {work}/{ia}.{v}.trace 400000")
             found = False
             for tag, x in ta.items():
                 y = tb.get(tag.replace(f"{ia}.", f"{ib}."))
@@ -293,7 +297,30 @@ def run_wide(rep, strict_diff):
     lines = circ.run_driver(driver, cmds, str(work / "batch")) if driver else []
     tie_bad = [l for l in lines if l.startswith("TIE") and "MISMATCH" in l]
     if tie_bad: broken.append(f"{len(tie_bad)} tie mismatches (wide twins), first: {tie_bad[0][:250]}")
-    rep.cov["wide_twins"] = dict(pairs=len(pairs), trace_pairs_compared=compared, traces_validated_against_model=sum(1 for l in lines if l.startswith("TIE") and " ok " in l),
+    cert = [l for l in lines if l.startswith("CERT")]
+    rej = [l for l in cert if " REJECTED " in l]
+    if rej: broken.append(f"{len(rej)} certificates rejected by the verified checker (wide twins), first: {rej[0][:250]}")
+    seen = {v["programA"][0] for v in viol}
+    for l in [l for l in cert if " FAIL " in l]:
+        p = l.split(); fa, fb = p[1].split("/")[-1], p[2].split("/")[-1]
+        ia, va = fa.rsplit(".", 2)[0], fa.rsplit(".", 2)[1]; ib, vb = fb.rsplit(".", 2)[0], fb.rsplit(".", 2)[1]
+        if prog[ia][0] in seen: continue
+        m = [x for x in p if x.startswith("stimulus=")]
+        if not m: broken.append("wide twin certificate failed without stimulus: " + l[:200]); continue
+        stim = m[0][len("stimulus="):]
+        cex = work / "cex"; cex.mkdir(exist_ok=True)
+        G.write_programs(cex / "designs.txt", [prog[ia], prog[ib]])
+        open(cex / "stim.txt", "w").write(f"{ia} {stim}\n{ib} {stim}\n")
+        circ.run_harness(harness, str(cex / "designs.txt"), str(cex), ",".join(sorted({va, vb})), replay_stim=str(cex / "stim.txt"))
+        x = circ.parse_traces(cex / f"{ia}.{va}.trace").get(f"{ia}.{va} replay"); y = circ.parse_traces(cex / f"{ib}.{vb}.trace").get(f"{ib}.{vb} replay")
+        real = (strict_diff(x, y) if va == "pre" else circ.direct_diff(x, y)) if x and y else None
+        if real:
+            viol.append(dict(kind="wide decoration twins differ (product BFS counterexample confirmed on the real simulator)", variant=va,
+                             programA=prog[ia], programB=prog[ib], stimulus=stim, real_simulator=real, model=l)); seen.add(prog[ia][0])
+        else:
+            broken.append("wide twin counterexample not reproduced on the real simulator: " + l[:200])
+    rep.cov["wide_twins"] = dict(certificates_accepted=sum(1 for l in cert if " OK " in l), certificates_failed=sum(1 for l in cert if " FAIL " in l),
+                                 certificates_too_big=sum(1 for l in cert if " TOOBIG " in l), pairs=len(pairs), trace_pairs_compared=compared, traces_validated_against_model=sum(1 for l in lines if l.startswith("TIE") and " ok " in l),
                                  tie_unsupported=sum(1 for l in lines if l.startswith("TIE") and "UNSUPPORTED" in l), decoration_histogram=dh,
-                                 note="64..400-bit signals; tie + real-simulator differential under sampled stimuli, no certificate")
+                                 note="64..400-bit signals; tie + real-simulator differential under sampled stimuli; verified certificate where the pair has few input bits")
     return viol, broken
